@@ -107,9 +107,6 @@ def laws():
   law('power is frame independent: X m . f == m . X* f (unit q)', MF,
       lambda p1, q1, ma, mv, fa, fv: (T(p1, q1).do(Motion(ma, mv)).dot(Force(fa, fv)), Motion(ma, mv).dot(T(p1, q1).do(Force(fa, fv)))),
       mutant=lambda p1, q1, ma, mv, fa, fv: (T(p1, q1).do(Motion(ma, mv)).dot(Force(fa, fv)), Motion(ma, mv).dot(T(-p1, q1).do(Force(fa, fv)))))
-  law('motion transforms compose', lambda: (R('p1', (3,)), R('q1', (4,)), R('p2', (3,)), R('q2', (4,)), R('ma', (3,)), R('mv', (3,))),
-      lambda p1, q1, p2, q2, ma, mv: (lambda a, b: (jp.concatenate([a.ang, a.vel]), jp.concatenate([b.ang, b.vel])))(
-          T(p1, q1).do(T(p2, q2)).do(Motion(ma, mv)), T(p2, q2).do(T(p1, q1).do(Motion(ma, mv)))), core_=False)
   law('motion transforms compose (unit q)', lambda: (R('p1', (3,)), UQ('q1'), R('p2', (3,)), UQ('q2'), R('ma', (3,)), R('mv', (3,))),
       lambda p1, q1, p2, q2, ma, mv: (lambda a, b: (jp.concatenate([a.ang, a.vel]), jp.concatenate([b.ang, b.vel])))(
           T(p1, q1).do(T(p2, q2)).do(Motion(ma, mv)), T(p2, q2).do(T(p1, q1).do(Motion(ma, mv)))))
@@ -156,9 +153,6 @@ def laws():
             jp.concatenate([(r @ i @ r.T + par).reshape(-1), p1 * mass, mass[None]]))
   law('Transform.do(Inertia) is the parallel-axis theorem', lambda: (R('p1', (3,)), UQ('q1'), R('i', (6,)), R('mass')), itrans)
   # ---- constructions
-  law('inv_3x3 inverts (exact det + 1e-10 denominator)', lambda: (R('m', (3, 3)),),
-      lambda m: (M.inv_3x3(m) @ m * (jp.linalg.det(m) + 1e-10), jp.linalg.det(m) * jp.eye(3)),
-      pre=lambda m: [], core_=False, timeout=120)
   def det_ref(m):
     return (m[0, 0] * (m[1, 1] * m[2, 2] - m[1, 2] * m[2, 1]) - m[0, 1] * (m[1, 0] * m[2, 2] - m[1, 2] * m[2, 0])
             + m[0, 2] * (m[1, 0] * m[2, 1] - m[1, 1] * m[2, 0]))
